@@ -184,11 +184,11 @@ DET_SELECTORS = [('lang', ('en',)), ('lang', ('de',)), ('lang', ('',)), ('lang',
 def det_documents(tier):
     """-> list of (name, builder description) ; built lazily by build_det."""
     out = []
-    metas = ('none', 'pragma', 'second', 'unrelated-first', 'unrelated-only')
+    metas = ('none', 'pragma', 'second', 'unrelated-first', 'unrelated-only', 'content-first')
     depth = 3 if tier == 'quick' else 4
     for langs in itertools.product(LANGS, repeat=depth):
         for meta in metas:
-            if tier == 'quick' and meta in ('second', 'unrelated-first', 'unrelated-only') and langs[0] is not None:
+            if tier == 'quick' and meta in ('second', 'unrelated-first', 'unrelated-only', 'content-first') and langs[0] is not None:
                 continue
             for kind in ('html.parser', 'lxml', 'html5lib', 'api', 'xhtml', 'xml'):
                 if kind in ('lxml', 'html5lib') and tier == 'quick' and (sum(x is None for x in langs) + metas.index(meta)) % 2:
@@ -208,6 +208,9 @@ def chain_markup(langs, meta, iframe_at, xml_style=False, xhtml=False):
     head = ''
     if meta == 'pragma':
         head = '<meta http-equiv="content-language" content="fr"%s>' % ('/' if xhtml or xml_style else '')
+    elif meta == 'content-first':
+        # the same pragma with its attributes in the other order (and another attribute in between): attribute order carries no meaning
+        head = '<meta content="fr" data-x="en" http-equiv="content-language"%s>' % ('/' if xhtml or xml_style else '')
     elif meta == 'second':
         head = '<meta charset="utf-8"%s><meta http-equiv="Content-Language" content="fr"%s>' % ((('/' if xhtml or xml_style else ''),) * 2)
     elif meta == 'unrelated-first':
